@@ -79,7 +79,15 @@ class Check:
                   % (self.prop, hit["entry"].get("what", ""), fid, hit["count"], hit["example"]))
         seen = set()
         reported = 0
+        # one replay per distinct signature first, so that every class of failure is written out
+        classes = {}
         for sig, replay, msg in self.violations:
+            classes.setdefault(json.dumps(sig, sort_keys=True), []).append((sig, replay, msg))
+        ordered = [v[0] for v in classes.values()] + [x for v in classes.values() for x in v[1:]]
+        if len(classes) > 1 or len(self.violations) > 3:
+            for k, v in sorted(classes.items(), key=lambda kv: -len(kv[1])):
+                print("  violation class x%d: %s" % (len(v), k))
+        for sig, replay, msg in ordered:
             d = digest([sig, replay])
             if d in seen:
                 continue
